@@ -36,7 +36,30 @@ pub struct MacroCase {
     /// panic; the ones after the set must work, on the same thread)
     #[serde(default)]
     pub set_after: usize,
+    /// number of `compare_exchange_weak` attempts made by set_global_default that fail
+    /// spuriously (allowed by the memory model on LL/SC targets; injected through the
+    /// cfg(cadence_verif) shim). The set must still take effect.
+    #[serde(default)]
+    pub spurious_weak: u8,
     pub invocations: Vec<MacroInv>,
+}
+
+#[cfg(cadence_verif)]
+struct SpuriousWeak(Cell<u8>);
+
+#[cfg(cadence_verif)]
+impl cadence_macros::verif_shim::Tracer for SpuriousWeak {
+    fn before(&self, _ev: &cadence_macros::verif_shim::Event) {}
+    fn after(&self, _ev: &cadence_macros::verif_shim::Event) {}
+    fn fail_weak_spuriously(&self, _ev: &cadence_macros::verif_shim::Event) -> bool {
+        let left = self.0.get();
+        if left > 0 {
+            self.0.set(left - 1);
+            true
+        } else {
+            false
+        }
+    }
 }
 
 #[derive(Serialize, Deserialize, Clone, Debug, Default)]
@@ -207,7 +230,13 @@ pub fn child_main() -> i32 {
     let do_set = |handle: &ScriptedSinkHandle| {
         if let Some(cfg) = &case.cfg {
             let client = handle.build_client(cfg);
+            #[cfg(cadence_verif)]
+            if case.spurious_weak > 0 {
+                cadence_macros::verif_shim::install_tracer(Some(Box::new(SpuriousWeak(Cell::new(case.spurious_weak)))));
+            }
             cadence_macros::set_global_default(client);
+            #[cfg(cadence_verif)]
+            cadence_macros::verif_shim::install_tracer(None);
             if case.second_set {
                 let other = ScriptedSinkHandle::new();
                 let mut cfg2 = cfg.clone();
@@ -452,13 +481,14 @@ pub fn macro_case() -> BoxedStrategy<MacroCase> {
     (
         prop::option::weighted(0.9, cfg_strategy(4)),
         prop::bool::weighted(0.3),
-        prop_oneof![3 => Just(0usize), 2 => 1usize..6],
+        (prop_oneof![3 => Just(0usize), 2 => 1usize..6], prop_oneof![3 => Just(0u8), 1 => 1u8..4]),
         prop::collection::vec(inv, 1..40),
     )
-        .prop_map(|(cfg, second_set, set_after, invocations)| MacroCase {
+        .prop_map(|(cfg, second_set, (set_after, spurious_weak), invocations)| MacroCase {
             cfg,
             second_set,
             set_after,
+            spurious_weak,
             invocations,
         })
         .boxed()
@@ -511,6 +541,9 @@ impl Campaign for MacroCampaign {
         }
         if case.second_set {
             classes.push("second set_global_default (ignored)");
+        }
+        if case.cfg.is_some() && case.spurious_weak > 0 {
+            classes.push("spurious compare_exchange_weak failures injected into set_global_default");
         }
         if case.cfg.is_some() && case.set_after > 0 {
             classes.push("macros invoked before and after the global default is set");
